@@ -96,7 +96,7 @@ def _do_check(mod, pid, tier, seed):
 
     # G4: a violation is reported only if it reproduces from its replay record
     os.makedirs(evidence.REPLAY_DIR, exist_ok=True)
-    reported = []
+    reported, unconfirmed = [], []
     for v in unknown[:MAX_REPORTED]:
         path = _replay_path(pid, v["key"])
         # candidates: the case itself, then alternatives that carry more context (e.g. the history that ran
@@ -108,11 +108,24 @@ def _do_check(mod, pid, tier, seed):
             if _reproduces_in_fresh_process(pid, path):
                 break
         else:
-            raise loader.HarnessError(
-                f"violation did not reproduce from its replay file in a fresh process (unowned nondeterminism?): {v['key']}: {v['what']}"
-            )
+            # context-dependent (the code under test keeps state between calls and no recorded context reproduces
+            # it): not reported as a verdict on its own; only if NO violation of this run reproduces is the run unusable
+            unconfirmed.append(v)
+            try:
+                os.remove(path)
+            except OSError:
+                pass
+            continue
         reported.append((v, path))
 
+    if unknown and not reported:
+        v = unconfirmed[0]
+        raise loader.HarnessError(
+            f"no violation reproduced from its replay file in a fresh process (unowned nondeterminism?): {v['key']}: {v['what']}"
+        )
+    for v in unconfirmed:
+        print(f"  unconfirmed (did not reproduce standalone, not counted): {v['key']}")
+    unknown = [v for v in unknown if v not in unconfirmed]
     for key, what in seen_known:
         print(f"KNOWN-FINDING: property={pid} {key}: {what}")
     for v, path in reported:
